@@ -19,6 +19,7 @@ type built struct {
 	schema *progs.Schema
 	opts   gobuild.Options
 	res    *gobuild.Result
+	job    *gobuild.Job
 }
 
 func (b *built) id() string { return fmt.Sprintf("prog-seed=%d opts=%s", b.seed, b.opts) }
@@ -75,6 +76,7 @@ func (c *checker) buildPrograms(n int, cfg func(r *rng.R) progs.Config, opt func
 		seed := c.r.U64()
 		bs[i] = c.makeProgram(seed, cfg, opt)
 		jobs[i] = gobuild.JobFor(bs[i].prog, bs[i].schema, bs[i].opts, withDriver)
+		bs[i].job = jobs[i]
 	}
 	res := c.env.BuildAll(jobs, *par)
 	for i := range bs {
